@@ -31,9 +31,15 @@ def build_repo(features=()):
         except ValueError:
             continue
         if m.get('reason') == 'compiler-artifact' and m.get('target', {}).get('name') == 'unimock' and 'lib' in m['target'].get('kind', []):
+            # use the hashed artifact in deps/ (its name depends on the package's path): the un-hashed copy that cargo "uplifts" to
+            # target/debug/libunimock.rlib is shared by every tree built into this target directory and may belong to another tree
             for f in m.get('filenames', []):
-                if f.endswith('.rlib'):
-                    rlib = f
+                if f.endswith('.rmeta') and os.sep + 'deps' + os.sep in f and os.path.exists(f[:-6] + '.rlib'):
+                    rlib = f[:-6] + '.rlib'
+            if rlib is None:
+                for f in m.get('filenames', []):
+                    if f.endswith('.rlib') and os.sep + 'deps' + os.sep in f:
+                        rlib = f
     if not rlib:
         raise TywitError('rlib of unimock not found in cargo output')
     return rlib, os.path.join(td, 'debug', 'deps')
